@@ -70,9 +70,9 @@ def run(ctx):
     # through the whole worker (FIFO -> named-pipe ingester -> syslog ingester -> processor): a hand-off that has to wait
     # for a busy correlator (6.5 s, nobody cancels) still delivers the login - scenarios of Pipeline!WorkerScenarios
     wsc = ctx.tlc("PipelineMC", "Pipeline_scen.cfg", workers=1, timeout=120, name="workerscen")
-    late = [s for s in vlib.tlc_prints(wsc["stdout"], "SCEN")[0] if s["state"] == "sendinglate"]
-    if len(late) != 4:
-        raise Infra("expected 4 late-receiver scenarios, got %d" % len(late))
+    late = [s for s in vlib.tlc_prints(wsc["stdout"], "SCEN")[0] if s["state"] in ("sendinglate", "writefail")]
+    if len(late) != 5:
+        raise Infra("expected 4 late-receiver scenarios and the write-failure scenario, got %d" % len(late))
     wsp = ctx.path("late.json")
     json.dump(late, open(wsp, "w"))
     fd = ctx.path("fifos")
@@ -89,6 +89,12 @@ def run(ctx):
                           "cancelled - was not delivered when the correlator received again" % (r["cap"], r["stall"]),
                           {"kind": "worker-scenario", "scenario": {"worker": "S", "state": "sendinglate", "cap": r["cap"],
                                                                    "stall": r["stall"]}, "observed": r})
+        elif b["what"] == "WriteErrorLost":
+            ctx.violation("WriteErrorLost", "the event of an accepted login could not be written, but the sshd worker (FIFO -> "
+                          "named-pipe ingester -> syslog ingester -> processor) did not end with that error: returned=%s err=%r"
+                          % (r["returned"], r["err"]),
+                          {"kind": "worker-scenario", "scenario": {"worker": "S", "state": "writefail", "cap": 0, "stall": 0},
+                           "observed": r})
         elif b["what"] == "StateNotReached":
             raise Infra("late-receiver scenario could not be established")
     # binding self-test: corrupted scenario traces must be rejected
